@@ -18,8 +18,8 @@ RULE = ("generated configurations (nesting, string-prefix siblings, uses/ignores
         "0..400 paths (>=20% above the batch size 50) plus permuted/duplicated variants of the same change set; malformed stream model-vs-impl only; "
         "non-trivial = in scope, >=1 changed target and >=1 unchanged target or an ignores/uses entry decided the outcome; distinct by (config, changes)")
 
-def impl_analyze(ctx, cfg, changes):
-    r = ctx.harness.call(fn="analyze", cfg=G.cfg_json(cfg), mk=[t["path"] for t in cfg["targets"]], changes=changes, sc=True, sct=True, stg=False)
+def impl_analyze(ctx, cfg, changes, sc=True, sct=True, stg=False):
+    r = ctx.harness.call(fn="analyze", cfg=G.cfg_json(cfg), mk=[t["path"] for t in cfg["targets"]], changes=changes, sc=sc, sct=sct, stg=stg)
     return enc_impl(r)
 
 RCODE = {"target": 0, "uses": 1, "ignores": 2}
@@ -33,10 +33,11 @@ def enc_impl(r):
     kind = 1 if (r["err"].get("type") == "graph" and "Cycle" in msg) else 2 if "Duplicate label" in msg else 3
     return [0, kind]
 
-def eval_case(ctx, cfg, changes, via="hook", impl=None):
+def eval_case(ctx, cfg, changes, via="hook", impl=None, flags=(True, True, False)):
     if impl is None:
-        impl = impl_analyze(ctx, cfg, changes)
-    v = ctx.model.call("C01", G.cfg_val(cfg), changes, True, impl)
+        impl = impl_analyze(ctx, cfg, changes, *flags)
+    with_brk = bool(flags[0] and flags[1])
+    v = ctx.model.call("C01", G.cfg_val(cfg), changes, with_brk, impl)
     in_scope, mv, agree, spec = bool(v[0]) and G.normalised(cfg, changes), v[1], bool(v[2]), bool(v[3])
     nontriv = False
     if in_scope and impl[0] == 1:
@@ -44,7 +45,8 @@ def eval_case(ctx, cfg, changes, via="hook", impl=None):
         has_ign = any(e[1] == 2 for c in impl[1][1] for e in c[1])
         has_use = any(e[1] == 1 for c in impl[1][1] for e in c[1])
         nontriv = (0 < nt < len(cfg["targets"])) or has_ign or has_use
-    case = {"cfg": cfg, "changes": changes, "via": via}
+    case = {"cfg": cfg, "changes": changes, "via": via, "flags": list(flags)}
+    ctx.count("flags_%d%d%d" % tuple(int(x) for x in flags))
     detail = {"impl_targets": impl[1][0] if impl[0] == 1 else impl, "model_targets": [vlib.dstr(x) for x in mv[0]] if mv else None,
               "in_scope": in_scope, "agree": agree, "spec_ok": spec}
     ctx.count("via_" + via); ctx.count("in_scope" if in_scope else "out_of_scope")
@@ -102,6 +104,12 @@ def run(ctx, scale):
             continue
         cfg, changes = gen_case(rng)
         d, impl = eval_case(ctx, cfg, changes)
+        # the summary must not depend on which parts of the output were asked for (analyze, analyze --changes, run's own call)
+        fl = rng.choice([(False, False, False), (True, False, False), (False, True, False), (False, False, True), (True, True, True)])
+        d3, impl3 = eval_case(ctx, cfg, changes, via="flags", flags=fl)
+        if impl[0] == 1 and (impl3[0] != 1 or impl3[1][0] != impl[1][0]):
+            ctx.spec_failures.append(({"cfg": cfg, "changes": changes, "flags": list(fl), "via": "flags"},
+                                      {"what": "summary depends on the output flags", "with_breakdown": impl[1][0], "with_flags": impl3[1][0] if impl3[0] == 1 else impl3}))
         if i % 4 == 0 and changes and impl[0] == 1:
             # same change set, different order / multiplicity: the implementation's own outputs must coincide
             perm = list(changes); rng.shuffle(perm); perm = perm + perm[:rng.randint(0, len(perm))]
@@ -114,7 +122,7 @@ def run(ctx, scale):
 
 def replay(ctx, case):
     c = case.get("case", case)
-    d, impl = eval_case(ctx, c["cfg"], c["changes"])
+    d, impl = eval_case(ctx, c["cfg"], c["changes"], flags=tuple(c.get("flags", (True, True, False))))
     if "permuted" in c:
         d2, impl2 = eval_case(ctx, c["cfg"], c["permuted"])
         d = {"first": d, "second": d2}
@@ -123,10 +131,11 @@ def replay(ctx, case):
 def shrink(ctx, case, detail):
     if "permuted" in case: return case, detail
     cfg, changes = case["cfg"], case["changes"]
+    flags = tuple(case.get("flags", (True, True, False)))
     def fails(c, ch):
         if not c["targets"]: return False
-        impl = impl_analyze(ctx, c, ch)
-        v = ctx.model.call("C01", G.cfg_val(c), ch, True, impl)
+        impl = impl_analyze(ctx, c, ch, *flags)
+        v = ctx.model.call("C01", G.cfg_val(c), ch, bool(flags[0] and flags[1]), impl)
         return bool(v[0]) and G.normalised(c, ch) and not bool(v[3])
     changed = True
     while changed:
@@ -153,5 +162,5 @@ def shrink(ctx, case, detail):
                     if fails(c, changes): cfg = c; changed = True; break
                 if changed: break
             if changed: break
-    d, impl = eval_case(ctx, cfg, changes)
-    return {"cfg": cfg, "changes": changes, "via": "hook"}, d
+    d, impl = eval_case(ctx, cfg, changes, flags=flags)
+    return {"cfg": cfg, "changes": changes, "via": "hook", "flags": list(flags)}, d
